@@ -28,6 +28,7 @@ Definition wal_checksum (be : bool) (s0 s1 : N) (b : list N) : N * N := wal_sum 
 Record walhdr := { wh_be : bool; wh_ps : N; wh_salt1 : N; wh_salt2 : N; wh_ck1 : N; wh_ck2 : N }.
 Inductive hres := HOk (h : walhdr) | HEOF | HErr.
 
+Definition wal_ps_ok (v : N) : bool := (512 <=? v) && (v <=? 65536) && (N.land v (v - 1) =? 0).
 (* ReadHeader *)
 Definition wal_read_header (b : list N) : hres :=
   match sub b 0 32 with
@@ -40,6 +41,7 @@ Definition wal_read_header (b : list N) : hres :=
       let '(c1, c2) := wal_checksum be 0 0 (firstn 24 hdr) in
       if negb ((c1 =? u32 hdr 24) && (c2 =? u32 hdr 28)) then HEOF
       else if negb (u32 hdr 4 =? 3007000) then HErr
+      else if negb (wal_ps_ok (u32 hdr 8)) then HErr      (* not a power of two in 512..65536: SQLite ignores the log *)
       else HOk {| wh_be := be; wh_ps := u32 hdr 8; wh_salt1 := u32 hdr 16; wh_salt2 := u32 hdr 20; wh_ck1 := c1; wh_ck2 := c2 |}
   end.
 
